@@ -134,4 +134,18 @@ def serveWrite (parseKV : Bytes → Option Bytes) (maxChunk : Nat) (j : Journal)
     if r.2.err then none else some (r.1, es)
   | _ => none
 
+/-- the additional check of the proposed repair of F20a (regenerated fact `ingestorChecksRecordSize`): the validation pass of
+`wpIterator.init` rejects the whole packet when some event's record — `LogEvent{Msg, Fields: write-level ++ own}.WritableSize()`,
+the size `iwrapper` will marshal — exceeds the chunk reader's maximum record size (`maxRec`; 0 = not limited). -/
+def sizeRejected (parseKV : Bytes → Option Bytes) (maxRec : Nat) (body : Bytes) : Bool :=
+  Generated.C01.ingestorChecksRecordSize && maxRec != 0 &&
+    (match WireRT.wpDrainStrict parseKV body with
+     | some (_, es) => !es.all (fun e => decide (e.writableSize ≤ maxRec))
+     | none => false)
+
+/-- `ServerIngestor.write` with the record-size limit the ingestor knows (`maxRec`) -/
+def serveWriteSized (parseKV : Bytes → Option Bytes) (maxChunk maxRec : Nat) (j : Journal) (body : Bytes) :
+    Option (Journal × List WireRT.Event) :=
+  if sizeRejected parseKV maxRec body then none else serveWrite parseKV maxChunk j body
+
 end Logrange.WriteLoopM
